@@ -285,7 +285,9 @@ func (r *runner) doLoadX(o hx.Op) {
 	r.c.Emit("checked")
 }
 
-func (r *runner) doLoad(o hx.Op) {
+// doLoad: `load` = config.Load through a cobra command; `loadfromviper` = config.LoadFromViper with
+// a viper the command's flags are bound to (same inputs, same oracle, same model).
+func (r *runner) doLoad(o hx.Op, viaViper bool) {
 	fl, ok1 := parsePairs(o.Str("fl"))
 	fi, ok2 := parsePairs(o.Str("fi"))
 	if !ok1 || !ok2 {
@@ -306,7 +308,7 @@ func (r *runner) doLoad(o hx.Op) {
 	// in a fresh home.
 	var slot *cmdSlot
 	var home string
-	if cn == "" {
+	if cn == "" || viaViper {
 		home = r.home()
 		defer os.RemoveAll(home)
 	} else {
@@ -326,7 +328,9 @@ func (r *runner) doLoad(o hx.Op) {
 	before := Snapshot(&config.DefaultConfig, r.fs)
 	var cfg config.Config
 	var err error
-	if slot == nil {
+	if viaViper {
+		cfg, err = RealLoadFromViper(home, args)
+	} else if slot == nil {
 		cfg, err = RealLoad(home, args)
 	} else if err = slot.ensure(home, args, o.Bool("newcmd")); err == nil {
 		cfg, err = LoadThrough(slot.cmd)
@@ -394,7 +398,11 @@ func (r *runner) doLoad(o hx.Op) {
 		}
 		if f.Go == o.Str("f") {
 			focus = fmt.Sprintf("v=%s src=%s", hexS(g), src)
-			r.c.Hit("load:" + f.Kind + ":" + src)
+			if viaViper {
+				r.c.Hit("loadfromviper:" + src)
+			} else {
+				r.c.Hit("load:" + f.Kind + ":" + src)
+			}
 		}
 		// the oracle: flag > file > default
 		switch {
@@ -1052,7 +1060,9 @@ func Run(c *hx.Ctx) {
 				r.dropSlots()
 				c.Emit("ok")
 			case "load":
-				r.doLoad(o)
+				r.doLoad(o, false)
+			case "loadfromviper":
+				r.doLoad(o, true)
 			case "loadx":
 				r.doLoadX(o)
 			case "flagreach":
